@@ -120,6 +120,11 @@ func (n *simNet) unlisten(l *simListener) {
 func (n *simNet) dial(ctx context.Context, network, addr string) (net.Conn, error) {
 	n.mu.Lock()
 	l := n.listeners[addr]
+	if l == nil {
+		if i := strings.LastIndexByte(addr, ':'); i >= 0 {
+			l = n.listeners[addr[i:]] // servers listening on ":port"
+		}
+	}
 	if l == nil || (l.node != nil && l.node.isDead()) {
 		n.mu.Unlock()
 		n.s.stat("net:refused")
@@ -312,7 +317,7 @@ func (n *simNet) events() []event {
 				// mutex (not durably), which synctest cannot see through. These
 				// (tiny) requests are therefore delivered whole or not at all.
 				d.mu.Lock()
-				whole := bytes.HasSuffix(d.pending, []byte("0\r\n\r\n"))
+				whole := requestComplete(d.pending)
 				d.mu.Unlock()
 				if !whole {
 					continue
@@ -388,7 +393,9 @@ func (n *simNet) deliver(c *simConn, d *simDir) {
 			if c.bodyStart < 0 {
 				d.mu.Lock()
 				if i := bytes.Index(d.pending, []byte("\r\n\r\n")); i >= 0 {
-					c.bodyStart = d.total + int64(i) + 4
+					// flips hit file data, not the (unchecksummed) part
+					// descriptors: skip the JSON header of the payload
+					c.bodyStart = dataRegionStart(d.pending, i+4, d.total)
 				}
 				d.mu.Unlock()
 			}
